@@ -30,8 +30,26 @@ RULE = ("REFLECTION DRIVES THE TABLE: the modules of clikit.api.io and clikit.io
         "set_verbosity, and set_quiet / set_verbosity / indent of the OUTPUT the sections belong to (a section created afterwards "
         "starts with them); the stream is observed after every call and compared call by call; the oracle decides allowed / refused "
         "from quiet, verbosity and flags alone and asks: no byte from a refused call, no mark of a refused text anywhere in the "
-        "stream, and (decorated) screen = stacked contents; non-trivial = at least one refused call")
+        "stream, and (decorated) screen = stacked contents; non-trivial = at least one refused call.  THE IO LAYER (Model/GateIO.v, "
+        "props/c10io.py): the single calls of the table made on an I/O object are answered by the model as the HISTORY they are "
+        "(settings through the I/O or its two outputs, before or after section(), then the call; both streams are watched).  "
+        "Histories on every I/O class found: every sequence of <= 2 set_quiet / set_verbosity calls on the I/O, its output, its "
+        "error output (18 letters) x class x {forced ANSI, Plain, ANSI on an ANSI-capable stream}, every sequence of 3 with classes "
+        "and kinds in rotation (thorough: every class, kinds in rotation), a few writes between the setters, then all eight writing methods x one flag word per "
+        "level, then section() and the same on the section I/O, then the parent turned all the way up and both written to again; "
+        "parent + section: every sequence of <= 2 over the 30 letters of I/O 0 and I/O 1 = its section, then a second section, a "
+        "section of the section, Output.section() on an output, on a section output and on that section (sections of sections); "
+        "set_stream / set_formatter among the gate setters (<= 2 over 16 letters; 3 over 13 quick / 16 thorough), the section's own "
+        "stream / formatter changed afterwards; random histories (3000 / 30000) of 5-28 calls over every operation incl. invalid "
+        "verbosities (ValueError, nothing changed), set_interactive, indent / increment_indent, writes on the output objects "
+        "(overwrite on sections).  Every written text carries its own mark; after every call every stream is looked at; compared "
+        "with the model: per call raised / returned / on which streams the mark appeared, at the end quiet, verbosity, "
+        "indentation, supports_ansi(), section?, stream of every output, the two outputs of every I/O, is_interactive(); the "
+        "oracle walks the history on its own; non-trivial = a history with a refused and an allowed write")
 TRUSTED = ["which gate calls guard each method body (Model/Gate.v path) is a transcription, checked by this exhaustive tie",
+           "which output and method each of the eight writing methods of IO delegates to, and which objects each setter touches "
+           "(Model/GateIO.v io_delegate, step), are transcriptions of api/io/io.py and api/io/output.py, checked by the same tie; at "
+           "this level a text is its mark (bytes are C11 / C15)",
            "harness/translate.py (fail-closed translator of a pure subset of Python, driven by ast; its reading of that subset and the "
            "declared types of self._quiet / self._verbosity / flags are trusted) regenerates coq/theories/Generated/GenGate.v from "
            "Output._may_write and the constants of api/io/flags.py in the source tree on every run (bin/setup), and the theorems "
@@ -41,7 +59,11 @@ ASSUMPTIONS = ["verbosity is one of NORMAL/VERBOSE/VERY_VERBOSE/DEBUG (set_verbo
                "reading fixed here: the settings of a section output are those its output (its I/O) had when section() was called, "
                "until set_quiet / set_verbosity are called on the section itself (proposed-fixes/section-inherits-gate.md)",
                "gated_screen_is_stack: the texts of the ALLOWED writes are good markup (C15's class), the refused ones may be "
-               "anything; refused_call_is_invisible / refused_text_never_appears: none"]
+               "anything; refused_call_is_invisible / refused_text_never_appears: none",
+               "IO layer: io_gate_iff, io_monotone: none (every history from a fresh I/O); the theorems about one step name the "
+               "objects they speak of (the I/O exists, its outputs exist); an I/O class differs for the model only in whether its "
+               "section() works (NullIO: TypeError, the documented exception); clear / add_content and the stacking of a section of "
+               "a section are outside the histories"]
 # finding made by this model, repaired in /repo a112510: SectionOutput.clear() / overwrite() of a quiet decorated section emitted
 # nothing but cut the recorded content.  The oracle's claim "a refused call leaves no trace" is made for every call.
 
